@@ -125,7 +125,8 @@ def _install_contracts(agg):
 def write_file(path, N, blanks):
     with open(path, "w", newline="") as f:
         for i in range(N):
-            f.write("\n" if i in blanks else f"r{i},x\n")
+            # (one record ends in a backslash: an ordinary character, e.g. the root of a Windows drive)
+            f.write("\n" if i in blanks else (f"r{i},D:\\\n" if i == 1 else f"r{i},x\n"))
 
 
 def run_case(scan, ast, N, blanks, agg):
@@ -182,7 +183,7 @@ def run_group_case(scan, ast, N, blanks, agg):
 
     cps.reset_sandbox()
     cs = env.new_csvpaths()
-    rows = [[] if i in blanks else [f"r{i}", "x"] for i in range(N)]
+    rows = [[] if i in blanks else [f"r{i}", "D:\\" if i == 1 else "x"] for i in range(N)]
     cps.add_file(cs, "data", rows)
     cs.paths_manager.add_named_paths(name="g", paths=[f'~ id: m0 ~ $[{scan}][push("ls", line_number())]', "~ id: m1 ~ $[*][yes()]"])
     nonblank = [i for i in range(N) if i not in blanks]
